@@ -36,6 +36,36 @@ CHECKS = {
    "(1) In generated histories every request the specification calls advancing must be SUCCEEDED with a valid signature; (2) each batch of distinct keys is sent as a batch to one instance and entry-by-entry to a twin with the same history, verdict vectors must agree for sizes 1..400 and GOMAXPROCS 1..61; (3) util.Scatter is called for every n in 1..700 and 35 GOMAXPROCS values and its extents must partition [0,n) (that grid is exhaustive).",
    "Trusted: oracle.WM transcribes the statement; twin instances share nothing but the generator.",
    "5/C09"),
+ "C03": ("fault_enumeration",
+   "crash-point enumeration by self-SIGKILL at verifhook/Sign/Reply points + restart verification and conflicting-twin probes; random external kills; strace-based ordering check of value-log writes vs SIGN/REL events",
+   "For each script every (crash point, hit number) reached by a dry run is enumerated: a child process kills itself there, a fresh process reopens the directory, checks every SIGN/REL line logged before the kill against the reopened store, probes a conflicting twin of every released duty and continues towards further kills. Random parent-side SIGKILLs cover instants between hooks. One run under strace must show, for every SIGN/REL, an already completed write of exactly that record to a value log opened O_DSYNC (or fsync-ed). The in-process record-before-sign assertion also runs in C01/C02. Crash points are exhaustive at hook granularity for the scripts used, not for all histories.",
+   "SIGKILL keeps the page cache, so durability itself is decided on the syscall stream (the kernel was asked for synchronous durability before release); real power loss is out of reach.",
+   "5/C03"),
+ "C06": ("fault_enumeration",
+   "fault injection at every dependency seam (interposers + verifhook + undecodable records + OS-level write failure + closed store) with a per-position signature-iff-SUCCEEDED oracle",
+   "Every single fault of 23 kinds is injected for each of the five request kinds, batch sizes {1,2,5,17} and every position, at service and handler boundary; then seeded multi-fault sequences, a handler-only matrix over a stub signer, a closed store, a store closed under load (child; signatures that left it are re-verified against the reopened store) and a value log whose descriptor is made unwritable. The oracle: signature iff SUCCEEDED at every position and no signature where a fault fired. A fault whose injector never fired fails the run as inconclusive.",
+   "Faults are those producible through exported interfaces, the storage hook and the OS; values outside the four rule results are not injected.",
+   "5/C06"),
+ "C07": ("exploration",
+   "differential monitor: real static checker vs reference permission model over generated tables and engineered names; service-level carried-out => allowed oracle",
+   "300+ generated permission tables x 400 queries each compare Check() with a literal transcription of the statement (ordered entries, whole-name case-insensitive matching incl. alternation/own anchors, ordered operation lists). A sample of tables is mounted on a real stack and every operation through signer (by name, key, over-long key), lister and wallet manager is judged: carried out only if the model allows it for the resolved account; refused requests leave slashing state and lock flags unchanged.",
+   "The model uses Go regexp for matching (anchoring and grouping are its own).",
+   "5/C07"),
+ "C10": ("exploration",
+   "runtime monitor over the real CLI: never-lowers / covers-maxima / boundary-probe oracle after every import run",
+   "Sequences of imports through the real executable against databases holding real prior decisions; generated files (repeated keys, mixed blocks/attestations, per-field older/equal/newer, malformed numbers/keys, wrong metadata). After each run the database is reopened: no field lower than before; on exit 0 every field covers the maxima of file and history and the boundary requests are refused by the real rules; wrong metadata must fail and change nothing.",
+   "Decisions probed at rules.Service on the same directory.",
+   "5/C10"),
+ "C11": ("exploration",
+   "runtime monitor: export vs signed-history maxima; CLI export->import round trip and restart compared by identical probe sequences; legacy gob records vs specification",
+   "Histories of real decisions, then in-process and CLI exports must equal the maxima signed; the export is imported by the CLI into an empty instance; the restarted original and the re-imported instance answer the same shuffled probe grid around every watermark identically and as the sequential specification demands; stores pre-populated with legacy gob records must export and decide like the specification seeded with those values.",
+   "Legacy records are gob encodings of structs with the historical field names.",
+   "5/C11"),
+ "C15": ("exploration",
+   "runtime monitor: shadow wait-for graph on an interposed locker with cycle detection, directed schedule steering, stress with injected yields, progress watchdog, race detector",
+   "Liveness is restated as no wait-for cycle + bounded progress. Pairs of batches over ordered key selections are steered (A parked after its i-th lock until B reaches its j-th or a budget expires) for every position pair; 32 goroutines add random load with yields inside the interposer; a cycle found in the shadow graph is a proved deadlock. A finite run cannot decide liveness in general.",
+   "Shadow holds are recorded after acquisition and cleared before release, so a shadow cycle is a real one.",
+   "5/C15"),
 }
 
 NOT_YET = {
